@@ -323,6 +323,8 @@ def ref_solution(spec, theta, x0, ts):
 
 
 MAX_RHS_EVALS = 20000
+DRIVER_RTOL = 1e-5          # C02's contract for the scipy.integrate.ode path is 3e-6*(1 + |ref|)
+DRIVER = dict(runs=0, refused=0, max_dev=0.0)
 NFEV = [0]
 
 
@@ -389,6 +391,28 @@ def integ_check(spec, mode, m=None):
                     worst = max(worst, abs(Z[a, nS + nS * nP + j * nS + i] - dx0[a, i, j]))
     if mode == "iv":
         scale = max(scale, 1 + np.abs(dx0).max())
+    if worst <= INT_RTOL * scale:
+        # the same system through pygom's own driver (ode_utils.integrateFuncJac, the one pygom.loss uses), the arrangement
+        # handed over through args, one integrator for the whole grid and one per output time (full_output)
+        from pygom.model import ode_utils
+        for fo in (False, True):
+            try:
+                if mode == "iv":
+                    r = ode_utils.integrateFuncJac(m.ode_and_sensitivityIV_T, m.ode_and_sensitivityIV_jacobian_T, z0, 0.0, ts, full_output=fo)
+                else:
+                    r = ode_utils.integrateFuncJac(m.ode_and_sensitivity_T, m.ode_and_sensitivity_jacobian_T, z0, 0.0, ts,
+                                                   args=(mode == "by_state",), full_output=fo)
+            except Exception as e:      # noqa: B902   (IntegrationError: an explicit refusal)
+                DRIVER["refused"] += 1
+                continue
+            Y = np.asarray(r[0] if fo else r, dtype=float)
+            DRIVER["runs"] += 1
+            dev = float(np.abs(Y - Z).max()) if Y.shape == Z.shape else float("inf")
+            DRIVER["max_dev"] = max(DRIVER["max_dev"], dev / scale)
+            if dev > DRIVER_RTOL * scale:
+                return ("integrated-" + CLS[mode], "the %s system integrated by ode_utils.integrateFuncJac(..., args=%s, full_output=%s) "
+                        "differs from the solution of that system by %.3g (scale %.3g; %d states, %d parameters)"
+                        % (mode, "()" if mode == "iv" else (mode == "by_state",), fo, dev, scale, nS, nP), dev)
     if worst > INT_RTOL * scale:
         return ("integrated-" + CLS[mode], "integrated %s sensitivities differ from finite differences of reference solutions "
                 "by %.3g (scale %.3g; %d states, %d parameters)" % (mode, worst, scale, nS, nP), worst)
@@ -575,6 +599,7 @@ def run_search(ck):
     ck.notes["search_shape_distribution"] = dist
     ck.notes["search_observed_max_error"] = worst
     ck.notes["integrated_max_rhs_evaluations"] = NFEV[0]
+    ck.notes["integrated_through_pygom_driver"] = dict(DRIVER, rtol=DRIVER_RTOL)
 
 
 # ====================================================================== driver
